@@ -88,6 +88,27 @@ class C14(Prop):
         nrand = ctx.scale(400, 4000) * budget_scale
         for _ in range(nrand):
             cases.append(self._random_graph(rng))
+        # graphs that need MANY Hopcroft-Karp phases: disjoint unions of paths P_k whose greedy first phase
+        # leaves a single augmenting path of length 2k+1 (P_k is completed only in phase k+1), in several
+        # vertex numberings / edge orders, plus isolated vertices and duplicate entries
+        for K in ([2, 3, 4, 4, 5] if not ctx.thorough() else [2, 3, 4, 4, 5, 5, 6]) * (1 if stream == "main" else budget_scale):
+            edges, nu, nv = [], 0, 0
+            for k in range(1, K + 1):
+                a = [nu + k] + [nu + i for i in range(k)]
+                b = [None] + [nv + i for i in range(k + 1)]
+                for i in range(1, k + 1):
+                    edges.append([a[i], b[i]])
+                    edges.append([a[i], b[i + 1]])
+                edges.append([a[0], b[1]])
+                nu += k + 1
+                nv += k + 1
+            cases.append({"kind": "graph", "nu": nu, "nv": nv, "edges": [list(e) for e in edges]})
+            # a relabelled / reordered copy with an isolated vertex on each side and a duplicate entry
+            pu = list(range(nu)); pv = list(range(nv))
+            rng.shuffle(pu); rng.shuffle(pv)
+            e2 = [[pu[u], pv[v]] for u, v in edges]
+            rng.shuffle(e2)
+            cases.append({"kind": "graph", "nu": nu + 1, "nv": nv + 1, "edges": e2 + [list(e2[0])]})
         nk = ctx.scale(150, 1500) * budget_scale
         for _ in range(nk):
             c = self._random_graph(rng)
